@@ -89,6 +89,31 @@ func init() {
 				sp.Chunks = hexChunks(keys)
 				return Case{Specs: []Spec{sp}, Class: "yank-then-edit/" + meta["cmd"], Meta: meta}
 			}
+			if r.Intn(10) == 0 {
+				// two kills, a yank and a yank-pop (which turns the ring), then a NEW kill: yank gives the new one
+				cmd := killCmds[r.Intn(len(killCmds))]
+				meta["kind"], meta["cmd"] = "kill-after-yank-pop", cmd
+				sp.Inject = nil
+				sp.Binds = append(sp.Binds, Bind{Seq: `\C-x\C-za`, Cmd: cmd}, Bind{Seq: `\C-x\C-zp`, Cmd: "yank-pop"})
+				for i := 0; i < 3; i++ {
+					word := fmt.Sprintf("w%dx", i)
+					line, pos := word+" tail", 0
+					if strings.Contains(cmd, "backward") || strings.Contains(cmd, "rubout") || cmd == "unix-line-discard" {
+						line, pos = "head "+word, len("head "+word)
+					}
+					sp.Inject = append(sp.Inject, Inject{Seq: fmt.Sprintf(`\C-x\C-y%c`, 'a'+i), Line: line, Pos: pos})
+				}
+				sp.Inject = append(sp.Inject, Inject{Seq: `\C-x\C-yz`, Line: "", Pos: 0})
+				keys = []string{"\x18\x19a", "\x18\x1aa", "\x18\x19b", "\x18\x1aa", "\x18\x19z", "\x18\x1ab"}
+				for k := 1 + r.Intn(3); k > 0; k-- {
+					keys = append(keys, "\x18\x1ap")
+				}
+				meta["kill3"] = fmt.Sprint(len(keys) + 2)
+				keys = append(keys, "\x18\x19c", "\x18\x1aa", "\x18\x19z", "\x18\x1ab")
+				meta["probe"] = fmt.Sprint(len(keys) - 1)
+				sp.Chunks = hexChunks(keys)
+				return Case{Specs: []Spec{sp}, Class: "kill-after-yank-pop/" + cmd, Meta: meta}
+			}
 			switch r.Intn(6) {
 			case 5: // more kills than the ring has slots (ten), each from a fresh state: yank gives the most recent
 				cmd := killCmds[r.Intn(len(killCmds))]
@@ -175,6 +200,27 @@ func init() {
 			var probe int
 			fmt.Sscan(c.Meta["probe"], &probe)
 			if len(tr.Waits) <= probe+1 {
+				return nil
+			}
+			if c.Meta["kind"] == "kill-after-yank-pop" {
+				var k3 int
+				fmt.Sscan(c.Meta["kill3"], &k3)
+				nk := len(c.Specs[0].Chunks)
+				if len(tr.Waits) < nk+1 || k3 < 1 || k3 > nk {
+					return nil
+				}
+				before, after := tr.Waits[k3-1], tr.Waits[k3]
+				// what the kill took is read off the line (the kill buffer the child reports comes out of the ring itself)
+				cp := cutPoints([]rune(before.Line), []rune(after.Line))
+				if len(cp) == 0 {
+					stat("kill-after-yank-pop: nothing killed")
+					return nil
+				}
+				took := string([]rune(before.Line)[cp[0] : cp[0]+len([]rune(before.Line))-len([]rune(after.Line))])
+				stat("decided: kill-after-yank-pop")
+				if got := tr.Waits[nk].Line; got != took {
+					return []Finding{{"C16", "yank-differs/after-yank-pop/" + c.Meta["cmd"], fmt.Sprintf("two kills, yank and yank-pop, then %s took %q from %q: yank into an empty line gives %q", c.Meta["cmd"], took, before.Line, got), c}}
+				}
 				return nil
 			}
 			if c.Meta["kind"] == "yank-then-edit" {
